@@ -444,6 +444,9 @@ DoParse ==
        THEN emit' = <<ParseCb(q), Rv(ErrRec(q.perr))>> /\ skip' = TRUE /\ UNCHANGED stmts
        ELSE IF Len(q.stmts) # 1
        THEN emit' = <<ParseCb(q), Rv(ErrAny)>> /\ skip' = TRUE /\ UNCHANGED stmts
+       ELSE IF Custom /\ Head1.name = "xset"
+       THEN \* the user's statement cache refuses to store it: the message fails like any other
+            emit' = <<ParseCb(q), CacheCb("st.set", Head1.name), Rv(ErrAny)>> /\ skip' = TRUE /\ UNCHANGED stmts
        ELSE /\ emit' = <<ParseCb(q)>> \o CC(<<CacheCb("st.set", Head1.name)>>) \o <<Rv(MsgParseComplete)>>
             /\ stmts' = Put(stmts, Head1.name, q.stmts[1])
             /\ UNCHANGED skip
@@ -460,8 +463,13 @@ Tagged(m) == [i \in DOMAIN m.params |->
 DoBind ==
     /\ Reading("ready") /\ ~skip /\ Head1.t = "B"
     /\ Consume
-    /\ IF Head1.stmt \notin DOMAIN stmts
+    /\ IF Custom /\ Head1.stmt = "xget"
+       THEN \* the user's cache fails (an error, not "unknown"): still one ErrorResponse, not a dropped connection
+            ExtFailP(<<CacheGet("st.get", Head1.stmt, FALSE)>>, ErrAny) /\ UNCHANGED portals
+       ELSE IF Head1.stmt \notin DOMAIN stmts
        THEN ExtFailP(CC(<<CacheGet("st.get", Head1.stmt, FALSE)>>), ErrAny) /\ UNCHANGED portals
+       ELSE IF Custom /\ Head1.portal = "xbind"
+       THEN ExtFailP(<<CacheGet("st.get", Head1.stmt, TRUE), CacheCb("po.bind", Head1.portal)>>, ErrAny) /\ UNCHANGED portals
        ELSE /\ emit' = CC(<<CacheGet("st.get", Head1.stmt, TRUE), CacheCb("po.bind", Head1.portal)>>) \o <<Rv(MsgBindComplete)>>
             /\ portals' = Put(portals, Head1.portal,
                               [st |-> stmts[Head1.stmt], params |-> Tagged(Head1), rfmt |-> Head1.rfmt])
@@ -474,7 +482,9 @@ RowDescOrNoData(cols, codes) ==
 DoDescribe ==
     /\ Reading("ready") /\ ~skip /\ Head1.t = "D"
     /\ Consume
-    /\ IF Head1.kind = "S" /\ Head1.name \in DOMAIN stmts
+    /\ IF Custom /\ Head1.name = "xget" /\ Head1.kind \in {"S", "P"}
+       THEN ExtFailP(<<CacheGet(IF Head1.kind = "S" THEN "st.get" ELSE "po.get", Head1.name, FALSE)>>, ErrAny)
+       ELSE IF Head1.kind = "S" /\ Head1.name \in DOMAIN stmts
        THEN LET st == stmts[Head1.name] IN
             emit' = CC(<<CacheGet("st.get", Head1.name, TRUE)>>) \o <<Rv(MsgParamDesc(StOids(st))), RowDescOrNoData(st.cols, <<>>)>> /\ UNCHANGED skip
        ELSE IF Head1.kind = "P" /\ Head1.name \in DOMAIN portals
